@@ -552,16 +552,46 @@ Section Core.
     - apply Qc_eqb_neq. intros ->. apply Qcgt_alt in E. apply (Qclt_not_eq _ _ E). reflexivity.
   Qed.
 
-  (* the one-sided conversion: ordering of a against b, decided in a's unit *)
+  Lemma cmp_eqb_refl c : cmp_eqb c c = true.
+  Proof. destruct c; reflexivity. Qed.
+
+  (* the symmetric comparison decides the order of the physical quantities *)
+  Theorem sym_cmp_exact a b r :
+    unit_int (q_unit a) = true -> unit_int (q_unit b) = true ->
+    sym_cmp QcN tbl res keys a b = Ok r -> r = Some (Qc_cmp (DenQ a) (DenQ b)).
+  Proof.
+    intros Ha Hb. unfold sym_cmp. simpl.
+    assert (E1 : forall b', convert_to QcN tbl res keys b (q_unit a) = Ok b' ->
+                 Qc_cmp (q_val a) (q_val b') = Qc_cmp (DenQ a) (DenQ b)).
+    { intros b' C. destruct (convert_to_sound _ _ _ Hb Ha C) as (_ & _ & _ & V & _).
+      unfold DenQ. rewrite <- V. symmetry. apply Qc_cmp_mult_pos, Den_pos, Ha. }
+    assert (E2 : forall a', convert_to QcN tbl res keys a (q_unit b) = Ok a' ->
+                 Qc_cmp (q_val a') (q_val b) = Qc_cmp (DenQ a) (DenQ b)).
+    { intros a' C. destruct (convert_to_sound _ _ _ Ha Hb C) as (_ & _ & _ & V & _).
+      unfold DenQ. rewrite <- V. symmetry. apply Qc_cmp_mult_pos, Den_pos, Hb. }
+    destruct (convert_to QcN tbl res keys b (q_unit a)) as [b'|] eqn:Cb;
+      destruct (convert_to QcN tbl res keys a (q_unit b)) as [a'|] eqn:Ca.
+    - rewrite (E1 b' eq_refl), (E2 a' eq_refl), cmp_eqb_refl. intros H. injection H as <-. reflexivity.
+    - rewrite (E1 b' eq_refl). intros H. injection H as <-. reflexivity.
+    - rewrite (E2 a' eq_refl). intros H. injection H as <-. reflexivity.
+    - discriminate.
+  Qed.
+
+  Lemma sym_cmp_ok a b b' :
+    convert_to QcN tbl res keys b (q_unit a) = Ok b' -> exists r, sym_cmp QcN tbl res keys a b = Ok r.
+  Proof.
+    intros C. unfold sym_cmp. rewrite C. simpl.
+    destruct (convert_to QcN tbl res keys a (q_unit b)); [|eexists; reflexivity].
+    destruct (cmp_eqb _ _); eexists; reflexivity.
+  Qed.
+
   Theorem pcmp_exact a b :
     unit_int (q_unit a) = true -> unit_int (q_unit b) = true ->
     forall c, pcmp QcN tbl res keys a b = OOk c -> c = Qc_cmp (DenQ a) (DenQ b).
   Proof.
     intros Ha Hb c. unfold pcmp. simpl.
-    destruct (convert_to QcN tbl res keys b (q_unit a)) as [b'|] eqn:Cb; [|discriminate].
-    intros H. injection H as <-.
-    destruct (convert_to_sound _ _ _ Hb Ha Cb) as (_ & _ & _ & Vb & _).
-    unfold DenQ. rewrite <- Vb. symmetry. apply Qc_cmp_mult_pos. apply Den_pos, Ha.
+    destruct (sym_cmp QcN tbl res keys a b) as [[c0|]|] eqn:S; try discriminate.
+    intros H. injection H as <-. pose proof (sym_cmp_exact a b _ Ha Hb S) as E. congruence.
   Qed.
 
   Theorem qeq_exact a b b' :
@@ -569,10 +599,8 @@ Section Core.
     convert_to QcN tbl res keys b (q_unit a) = Ok b' ->
     qeq QcN tbl res keys a b = match Qc_cmp (DenQ a) (DenQ b) with Eq => true | _ => false end.
   Proof.
-    intros Ha Hb Cb. unfold qeq. rewrite Cb. simpl.
-    destruct (convert_to_sound _ _ _ Hb Ha Cb) as (_ & _ & _ & Vb & _).
-    unfold DenQ. rewrite <- Vb. rewrite Qc_cmp_mult_pos by (apply Den_pos, Ha).
-    apply Qc_eqb_cmp.
+    intros Ha Hb Cb. unfold qeq. destruct (sym_cmp_ok a b b' Cb) as (r & S). rewrite S.
+    rewrite (sym_cmp_exact a b r Ha Hb S). reflexivity.
   Qed.
 
   (* ------------------------------------------------------------ Op::ConvertTo *)
@@ -683,9 +711,9 @@ Section Core.
     - apply andb_true_iff in Hi. destruct Hi as [Hu Hia].
       destruct (eval QcN tbl res keys a) as [x|] eqn:Ea; [|discriminate]. cbn [bind].
       destruct (IHa Hia x eq_refl) as (Va & Ia & Da).
-      intros H. destruct (convert_to_sound _ _ _ Ia Hu H) as (U & _ & _ & V & _).
-      repeat split.
-      + unfold DenQ. rewrite U, V. exact Va.
+      intros H. destruct (vm_convert_sound x (from_unit QcN u) q Ia Hu H) as (U & _ & V & _).
+      simpl in U. repeat split.
+      + rewrite V. exact Va.
       + rewrite U. exact Hu.
       + intros _ z. rewrite U. reflexivity.
   Qed.
